@@ -35,7 +35,8 @@ class FsMonitor:
         self.events = []
         self.reads = []
         self.log_reads = False
-        self.fail_open = {}  # abs path -> exception factory
+        self.fail_open = {}  # abs path -> exception factory (read opens)
+        self.fail_write = {}  # abs path -> exception factory (write opens)
         self.on_open = None  # callback(path, is_write) for vanish/replace faults
         self.installed = False
         self.seq = 0
@@ -94,6 +95,9 @@ class FsMonitor:
                     self.active = True
             fac = self.fail_open.get(ap)
             if fac is not None and not is_write:
+                raise fac(ap)
+            fac = self.fail_write.get(ap)
+            if fac is not None and is_write:
                 raise fac(ap)
         elif event in _MUT_EVENTS:
             self.seq += 1
